@@ -21,7 +21,7 @@ func init() {
 		Explanation: "Decided: (R1) every field of the shared runtime structs (actor context, system, ref, event stream, actor scheduler, future, mailboxes, ring queue, remoting mailbox/central/connection/server, cluster context, behaviour stack) falls into exactly one protection class — immutable after construction, sync/atomic, guarded by one mutex on every access, a synchronisation object, published through a release/acquire pair, start-phase, or confined: " +
 			"a confined field (written after construction without lock or atomics) has no access synchronously reachable from the documented foreign entry points (ActorSystem.ActorOf/Tell/Ask/Kill/FindActor/Stop, EventStream methods, Future methods, ActorRef methods, Mailbox.Enqueue) or from an internally spawned goroutine other than a mailbox consumer; " +
 			"(R2) a map/slice loaded from a guarded field is not used after the unlock (checked through the guarded class incl. derived references), helper objects owned through a guarded field are only called with the guard held; (R3) no lock re-acquisition, acyclic lock order (C07.R2); (R4) the spawn order keeps the actor tree consistent under concurrent spawns and deaths: a child enters its parent's child table before its OnLaunch is told (C05.R2). " +
-			"(R5 = C04.R2) the result fields of a future, written without a lock, are read by other goroutines only after a receive on the done channel. (R6 = C04.R1) the future's result fields are stored only under the won completion CAS: they have a single writer. (R7 = C07.R9) every mutex acquisition is released on every path. (R8) no acquisition of a struct-field mutex is followed, before its release, by a call of a method of the same receiver object that acquires the same mutex (transitively through same-receiver helpers): sync mutexes are not re-entrant, and a nested RLock deadlocks as soon as a writer waits in between. NOT decided: logical (non-memory) races such as spawn racing kill of the root; absence of crashes in general.",
+			"(R5 = C04.R2) the result fields of a future, written without a lock, are read by other goroutines only after a receive on the done channel. (R6 = C04.R1) the future's result fields are stored only under the won completion CAS: they have a single writer. (R7 = C07.R9) every mutex acquisition is released on every path. (R8) no acquisition of a struct-field mutex is followed, before its release, by a call of a method of the same receiver object that acquires the same mutex (transitively through same-receiver helpers): sync mutexes are not re-entrant, and a nested RLock deadlocks as soon as a writer waits in between. (R9) every struct-field mutex that is released explicitly only (no deferred release) is not held across a call that can reach — through module functions, depth 4 — an invoke of a user-implemented hook (On…, Provide, Encode, Decode) or a function value of a named function type of the library's public package: user hooks may panic, callers recover, and an explicit release after the call would be skipped. NOT decided: logical (non-memory) races such as spawn racing kill of the root; absence of crashes in general.",
 		Assumptions: []string{
 			"an actor's own handler code runs on one goroutine at a time (C01) and touches only its own context's confined fields",
 			"start-phase fields: the system is not used from other goroutines before Start returns",
@@ -36,6 +36,7 @@ func init() {
 			}},
 			{ID: "C10.R6", Min: 8, Desc: "the future's result fields have a single writer: they are stored only under the won completion CAS (C04.R1)", Fn: c04OneShot},
 			{ID: "C10.R8", Min: 1, Desc: "no goroutine re-acquires a mutex it already holds (sync mutexes are not re-entrant; a nested RLock deadlocks as soon as a writer waits)", Fn: lockReentrancy},
+			{ID: "C10.R9", Min: 1, Desc: "a mutex held while user code can run is released by defer (a recovered panic must not leak the lock)", Fn: lockPanicSafety},
 			{ID: "C10.R7", Min: 1, Desc: "every mutex acquisition is released on every path (C07.R9)", Fn: lockPairing},
 			{ID: "C10.R5", Min: 4, Desc: "the future's result is read only after a receive on done (C04.R2 safe publication)", Fn: c04Publication},
 		},
